@@ -60,7 +60,7 @@ func c07Registered(cfg []c07Entry) map[string]c07Entry {
 	return m
 }
 
-var c07Variants = []string{"own-name", "absent", "null", "unknown-url", "other-builtin-name", "ext0-name", "ext1-name", "own-tag-ext-name", "both-keys", "wrong-type", "own-name-json-escaped", "own-name-respelled", "refused-registration-name"}
+var c07Variants = []string{"own-name", "absent", "null", "unknown-url", "other-builtin-name", "ext0-name", "ext1-name", "own-tag-ext-name", "both-keys", "wrong-type", "own-name-json-escaped", "own-name-respelled", "refused-registration-name", "own-name-key-long-head", "unknown-url-key-long-head"}
 
 type c07Token struct {
 	shape     int  // key family of the claims in the token
@@ -91,8 +91,10 @@ func c07Build(shape int, valid bool, variant int) *c07Token {
 		own, other = other, own
 	}
 	switch c07Variants[variant] {
-	case "own-name", "own-name-json-escaped":
+	case "own-name", "own-name-json-escaped", "own-name-key-long-head":
 		t.ownVal = own
+	case "unknown-url-key-long-head":
+		t.ownVal = "http://unknown.example/p"
 	case "absent":
 		t.ownAbsent = true
 	case "null":
@@ -144,6 +146,10 @@ func c07Build(shape int, valid bool, variant int) *c07Token {
 		// in CBOR an own-tag profile is declared under key 265 like every EAT profile
 		tree.Put(mcbor.I(265), mcbor.T(*t.ownTagVal))
 		m["own-profile"] = *t.ownTagVal
+	}
+	if strings.HasSuffix(c07Variants[variant], "-key-long-head") && !t.ownAbsent {
+		// the same key with a non-shortest head (CBOR only; the JSON document is unchanged)
+		tree.Pairs[0][0] = tree.Pairs[0][0].W(8)
 	}
 	t.cbor = mcbor.Encode(tree)
 	t.json, _ = json.Marshal(m)
